@@ -449,8 +449,9 @@ class SpecGen:
         if rnd.random() < 0.15:
             ro2 = self.range_operand()
             if ro2:
-                if self.k.get('union') and rnd.random() < 0.5 and ' ' not in txt + ro2[0]:
-                    # (an intersection inside a union is translated wrongly by pycel: C02, not claimed)
+                if self.k.get('union') and rnd.random() < 0.5 and not (set(' (') & set(txt + ro2[0])):
+                    # (an intersection or a parenthesised range operator inside a union is translated
+                    # wrongly by pycel - operator precedence: C02, not claimed)
                     # the union operator: references in parentheses, separated by commas
                     t3, p3, d3 = self.atom() if rnd.random() < 0.4 else ('', [], [])
                     if p3:
@@ -749,7 +750,8 @@ class SpecGen:
             txt, cells_, decl = inter
             rows_ = sorted({coord_rc(split_addr(a)[1])[0] for a in cells_})
             cols_ = sorted({coord_rc(split_addr(a)[1])[1] for a in cells_})
-            th, tw = len(rows_), len(cols_)
+            # (blocks are laid out three columns apart: at most 3 x 2, a larger result is trimmed)
+            th, tw = min(3, len(rows_)), min(2, len(cols_))
             prec = list(cells_)
             if th * tw == 1:
                 # one cell times a column: the scalar is spread over the array
